@@ -73,6 +73,10 @@ func c02Run(k int, script []string, forceWindow bool) c02Obs {
 }
 
 // concurrentStart: every start event is started with StartWith from its own goroutine, all released together
+// c02EarlyWait: before the instance is started a wait with an expired and one with a short context are issued; their
+// results are not judged (before the start the question is empty), but they must not change what later waits say
+var c02EarlyWait bool
+
 func c02RunMode(k int, script []string, forceWindow bool, concurrentStart bool) c02Obs {
 	obs := c02Obs{}
 	defs, err := ParseDefs(c02Prog(k).XML(""))
@@ -95,6 +99,14 @@ func c02RunMode(k int, script []string, forceWindow bool, concurrentStart bool) 
 	defer in.Close()
 	if dt != nil {
 		atomic.StoreInt32(&dt.armed, 1)
+	}
+	if c02EarlyWait {
+		expired, c1 := context.WithCancel(context.Background())
+		c1()
+		in.P.WaitUntilComplete(expired)
+		short, c2 := context.WithTimeout(context.Background(), 5*time.Millisecond)
+		in.P.WaitUntilComplete(short)
+		c2()
 	}
 	started := make(chan error, 1)
 	if concurrentStart {
@@ -224,7 +236,7 @@ func runC02(env *Env) {
 		if rep.Saturated() {
 			return
 		}
-		cs := fmt.Sprintf("k=%d start events, script=%v, forced-window=%v, concurrent-StartWith=%v", k, script, force, concStart)
+		cs := fmt.Sprintf("k=%d start events, script=%v, forced-window=%v, concurrent-StartWith=%v, waits-before-the-start=%v", k, script, force, concStart, c02EarlyWait)
 		env.Current(cs)
 		o := c02RunMode(k, script, force, concStart)
 		rep.Evaluations++
@@ -359,6 +371,13 @@ func runC02(env *Env) {
 		}
 	}
 	concStart = false
+	// waits issued before the instance is started (one on an expired context, one that times out) do not change
+	// what the waits after the start say
+	c02EarlyWait = true
+	run(1, []string{"w", "w", "a0", "W", "W"}, false)
+	run(2, []string{"w", "a0", "w", "a1", "W"}, false)
+	run(2, []string{"w", "a1", "c", "a0", "W"}, true)
+	c02EarlyWait = false
 	// repetitions of the bare start/complete cycle: natural schedules of the start-up window
 	reps := 60
 	if env.Thorough() {
